@@ -6,6 +6,9 @@ Tie: strict Rat correspondence of `TimeSeries.get` (window / resample step / res
 `smooth`) are patched in `qats.ts` by non-commuting *tag functions* (x+1, 2x+dt, x²) — the same tags the driver uses — so
 stage order and the sampling interval handed to the filter are visible in the compared output.
 Search: the property's clauses on the unpatched implementation + float exploration of (start, end, dt) for `resample`.
+Requested time arrays are sorted or unsorted, as ndarray or list, with out-of-span values (far / one ulp outside) at any
+position; the clauses are evaluated on a fresh object and after a *history* of earlier `get(...)` calls on the same object
+(a query must not change what later queries return).
 """
 from fractions import Fraction
 
@@ -16,8 +19,11 @@ from ..core import rat
 
 RULE = ("seeded dyadic series (3-40 samples; uniform with power-of-two steps, or non-uniform dyadic steps) x windows (inside / "
         "partially outside / exactly on samples / empty) x resample step / array (inside and outside the span) x all 8 stage "
-        "combinations; float exploration of decimal (start, dt, n) for stand-alone resampling; non-trivial = any option set; "
-        "distinct by (series, options)")
+        "combinations; requested arrays sorted / shuffled / with repeats, out-of-span values at any position (first, interior, last; "
+        "far or one ulp outside), passed as ndarray or list to get(resample=) and interpolate(); every clause also after a history "
+        "of 0-3 earlier get() calls (taper / filter / smooth / window / resample combinations) on the same object, and every "
+        "tagged get() issued twice; float exploration of decimal (start, dt, n) for stand-alone resampling; non-trivial = any "
+        "option set; distinct by (series, options)")
 
 
 class Tags:
@@ -71,6 +77,173 @@ def gen_series(rng):
     return t, x
 
 
+def gen_request(rng, t, p_out=0.4):
+    """requested time array: points of the span (dyadic fractions of it, stored times, the two ends), sorted or shuffled, possibly
+    with repeats; with probability p_out one or two values outside the span (far, 1/8, or one ulp) at any position"""
+    lo, hi = t[0], t[-1]
+    m = rng.choice([1, 2, 3, 5, 8])
+    pts = [rng.choice([lo + (hi - lo) * Fraction(rng.randint(0, 16), 16), t[rng.randrange(len(t))], lo, hi]) for _ in range(m)]
+    if rng.random() < 0.5:
+        pts.sort()
+    if rng.random() < p_out:
+        for _ in range(rng.choice([1, 1, 2])):
+            out = rng.choice([hi + 1, lo - 1, hi + Fraction(1, 8), lo - Fraction(1, 8), hi + 100,
+                              Fraction(float(np.nextafter(float(hi), np.inf))), Fraction(float(np.nextafter(float(lo), -np.inf)))])
+            pts.insert(rng.randint(0, len(pts)), out)
+    return pts
+
+
+def gen_history(rng, t):
+    """0-3 earlier get() calls on the same object, as JSON-able keyword dicts (real stage functions)"""
+    lo, hi = float(t[0]), float(t[-1])
+    h = []
+    for _ in range(rng.choice([0, 1, 1, 2, 3])):
+        kw = {}
+        k = rng.random()
+        if k < 0.25:
+            kw["twin"] = [lo + (hi - lo) * rng.randint(0, 4) / 8.0, hi - (hi - lo) * rng.randint(0, 3) / 8.0]
+        elif k < 0.4:
+            kw["resample"] = (hi - lo) / rng.choice([1, 2, 4, 7])
+        elif k < 0.5:
+            kw["resample"] = [lo + (hi - lo) * rng.randint(0, 8) / 8.0 for _ in range(rng.randint(1, 4))]
+        if rng.random() < 0.6:
+            kw["taperfrac"] = rng.choice([0.1, 0.25, 0.5])
+        if rng.random() < 0.3:
+            kw["filterargs"] = rng.choice([["lp", 0.1], ["hp", 0.05], ["bp", 0.05, 0.2], ["bs", 0.05, 0.2], ["tp", 1.0]])
+        if rng.random() < 0.25:
+            kw["window_len"] = 3
+        h.append(kw)
+    return h
+
+
+def kw_of(h):
+    kw = dict(h)
+    if "twin" in kw:
+        kw["twin"] = tuple(kw["twin"])
+    if "filterargs" in kw:
+        kw["filterargs"] = tuple(kw["filterargs"])
+    if isinstance(kw.get("resample"), list):
+        kw["resample"] = np.array(kw["resample"], dtype=float)
+    return kw
+
+
+def apply_history(ts, hist):
+    for h in hist or []:
+        try:
+            ts.get(**kw_of(h))
+        except Exception:
+            pass        # a refused query (e.g. a filter on a very short series) is still part of the history
+
+
+def exact_interp(t, x, q):
+    """linear interpolation of the stored samples in exact arithmetic; None outside the stored span"""
+    if q < t[0] or q > t[-1]:
+        return None
+    for i in range(len(t) - 1):
+        if t[i] <= q <= t[i + 1]:
+            return x[i] + (q - t[i]) / (t[i + 1] - t[i]) * (x[i + 1] - x[i])
+    return x[0]
+
+
+AFTER = " (also after earlier get() calls on the same object)"
+
+
+def direct_clauses(t, x, case):
+    """The property's clauses on the unpatched implementation for one series (Fractions) and one `case`: optional keys
+    history / twin / qs / step / req. Returns (ts, [(oracle, relevant case keys, expected, observed)])."""
+    from qats import TimeSeries
+    tf, xf = np.array([float(v) for v in t]), np.array([float(v) for v in x])
+    ts = TimeSeries("s", tf.copy(), xf.copy())
+    hist = case.get("history") or []
+    apply_history(ts, hist)
+    sfx = AFTER if hist else ""
+    bad = []
+    t0, x0 = ts.get()
+    if not (np.array_equal(t0, tf) and np.array_equal(x0, xf)):
+        bad.append(("without options the stored arrays are returned" + sfx, [], [tf.tolist()[:5], xf.tolist()[:5]],
+                    [np.asarray(t0).tolist()[:5], np.asarray(x0).tolist()[:5]]))
+    if "twin" in case:
+        a, b = [Fraction(v) for v in case["twin"]]
+        tw, xw = ts.get(twin=(float(a), float(b)))
+        keep = [(float(u), float(v)) for u, v in zip(t, x) if a <= u <= b]
+        if list(zip(tw.tolist(), xw.tolist())) != keep:
+            bad.append(("a window returns exactly the samples in the closed window, unchanged and in order" + sfx, ["twin"],
+                        keep[:5], list(zip(tw.tolist(), xw.tolist()))[:5]))
+        # modify == get
+        ts2 = TimeSeries("s", tf.copy(), xf.copy())
+        apply_history(ts2, hist)
+        ts2.modify(twin=(float(a), float(b)))
+        if not (np.array_equal(ts2.t, tw) and np.array_equal(ts2.x, xw)):
+            bad.append(("modify(**kwargs) stores what get(**kwargs) returns", ["twin"], [tw.tolist()[:5], xw.tolist()[:5]],
+                        [np.asarray(ts2.t).tolist()[:5], np.asarray(ts2.x).tolist()[:5]]))
+    # interpolation reproduces nodes, is linear in between, raises outside
+    vals = ts.interpolate(tf)
+    if not np.allclose(vals, xf, rtol=1e-12, atol=1e-12):
+        bad.append(("interpolation reproduces stored values at stored times" + sfx, [], xf.tolist()[:5], np.asarray(vals).tolist()[:5]))
+    for qs in case.get("qs", []):
+        q = Fraction(qs)
+        exp = exact_interp(t, x, q)
+        try:
+            got = float(ts.interpolate(np.array([float(q)]))[0])
+        except ValueError:
+            got = "ValueError"
+        if exp is None:
+            if got != "ValueError":
+                bad.append(("outside the stored span interpolation raises instead of extrapolating", ["qs"], "ValueError", got))
+        elif got == "ValueError" or abs(got - float(exp)) > 1e-11 * max(1.0, abs(float(exp))):
+            bad.append(("between two stored samples the value is their linear interpolation" + sfx, ["qs"], float(exp), got))
+    # requested time arrays (sorted or not, ndarray or list), through interpolate() and get(resample=...)
+    if "req" in case:
+        req = [Fraction(v) for v in case["req"]]
+        reqf = [float(v) for v in req]
+        exp = [exact_interp(t, x, q) for q in req]
+        outside = [str(q) for q, e in zip(req, exp) if e is None]
+        forms = [("interpolate(ndarray)", lambda: (reqf, ts.interpolate(np.array(reqf)))),
+                 ("get(resample=ndarray)", lambda: ts.get(resample=np.array(reqf))),
+                 ("get(resample=list)", lambda: ts.get(resample=list(reqf)))]
+        for label, call in forms:
+            try:
+                tt, xx = call()
+                got = [np.asarray(tt, dtype=float).tolist(), np.asarray(xx, dtype=float).tolist()]
+            except Exception as e:
+                got = type(e).__name__
+            if outside:
+                if not isinstance(got, str):
+                    bad.append(("resampling to a given array raises instead of extrapolating when a requested time (at any position "
+                                "of the array) is outside the stored span — %s" % label, ["req"],
+                                "an exception (outside: %s)" % ", ".join(outside[:3]), got[1][:8]))
+                continue
+            expf = [float(e) for e in exp]
+            if isinstance(got, str) or len(got[0]) != len(got[1]) or got[0] != reqf or len(got[1]) != len(expf) or \
+                    not np.allclose(got[1], expf, rtol=1e-11, atol=1e-11):
+                bad.append(("resampling to a given array returns the linear interpolation of the stored samples on exactly that grid"
+                            + sfx + " — %s" % label, ["req"], [reqf[:8], expf[:8]], got if isinstance(got, str) else [got[0][:8], got[1][:8]]))
+    # resample to a step: grid from first to last sample with the spacing closest to the request
+    if "step" in case:
+        d = Fraction(case["step"])
+        tr, xr = ts.get(resample=float(d))
+        k = len(tr) - 1
+        ratio = (t[-1] - t[0]) / d
+        if not (tr[0] == tf[0] and tr[-1] == tf[-1] and k >= 1 and abs(Fraction(k) - ratio) <= Fraction(1, 2) + Fraction(1, 10 ** 9) and
+                np.allclose(np.diff(tr), float(t[-1] - t[0]) / k, rtol=1e-12)):
+            bad.append(("resampling to a step gives an equidistant grid from the first to the last sample whose spacing is the one closest "
+                        "to the request", ["step"], "k=%s" % round(ratio), tr.tolist()[:6]))
+        elif len(tr) != len(xr):
+            bad.append(("time and data have equal length", ["step"], len(tr), len(xr)))
+        else:
+            # the grid values are the linear interpolation of the stored samples (grid points are floats: compare at the float grid)
+            expv = [exact_interp(t, x, min(max(Fraction(float(u)), t[0]), t[-1])) for u in tr]
+            if not np.allclose(xr, [float(e) for e in expv], rtol=1e-10, atol=1e-10):
+                bad.append(("resampling returns the linear interpolation of the stored samples on the requested grid" + sfx, ["step"],
+                            [float(e) for e in expv][:6], np.asarray(xr).tolist()[:6]))
+    # the queries above did not change what a plain query returns
+    t0, x0 = ts.get()
+    if not (np.array_equal(t0, tf) and np.array_equal(x0, xf)):
+        bad.append(("without options the stored arrays are returned" + AFTER, [k for k in ("twin", "qs", "req", "step") if k in case],
+                    [tf.tolist()[:5], xf.tolist()[:5]], [np.asarray(t0).tolist()[:5], np.asarray(x0).tolist()[:5]]))
+    return ts, bad
+
+
 def gen_opts(rng, t):
     o = dict(twin=None, resample=None, taper=False, filter=False, smooth=False)
     lo, hi = t[0], t[-1]
@@ -83,11 +256,7 @@ def gen_opts(rng, t):
     if k < 0.3:
         o["resample"] = ("step", (hi - lo) * Fraction(1, rng.choice([1, 2, 3, 4, 5, 7, 8])) * rng.choice([Fraction(1), Fraction(3, 2), Fraction(1, 2)]))
     elif k < 0.5 and o["twin"] is None:
-        m = rng.choice([1, 2, 5])
-        pts = sorted(lo + (hi - lo) * Fraction(rng.randint(0, 16), 16) for _ in range(m))
-        if rng.random() < 0.2:
-            pts.append(hi + 1)          # outside: must raise
-        o["resample"] = ("arr", pts)
+        o["resample"] = ("arr", gen_request(rng, t, p_out=0.25))
     elif k < 0.55 and o["twin"] is not None:
         o["resample"] = ("arr", [lo, hi])   # array + window: refused
     o["taper"], o["filter"], o["smooth"] = (rng.random() < 0.4, rng.random() < 0.5, rng.random() < 0.3)
